@@ -420,7 +420,9 @@ size_t SocketTlsImpl::Write(char const *data, size_t size)
       // if a previous TLS send failed (because handshake receipt was pending or
       // TCP congestion control blocked) we must repeat the call with the same buffer
       // see https://www.openssl.org/docs/man1.1.1/man3/SSL_write.html
-      assert(pendingSend.empty() || (pendingSend == remaining));
+      // (only its size can be verified: the asynchronous send path moves the unsent
+      // remainder to the front of its buffer, which leaves the remembered view dangling)
+      assert(pendingSend.empty() || (pendingSend.size() == remaining.size()));
 
       size_t written = 0U;
       auto res = SSL_write_ex(ssl.get(), remaining.data(), remaining.size(), &written);
